@@ -10,7 +10,7 @@ RULE = ("operation files of encode+decode calls over different small geometries 
         "start-aligned with random yields, several rounds; every concurrent result must equal the sequential result "
         "of the same line; any TSan report fails the batch. Proof part: the generated list of writable static-storage "
         "symbols of the fresh build is checked by `decide`, the frame property by induction")
-THEOREM_BACKED = "codec_path_has_no_shared_state (generated symbol list), frame_commutes, interleavings_agree"
+THEOREM_BACKED = "codec_path_has_no_shared_state (generated symbol list), codec_path_calls_no_hidden_state_function and codec_path_has_no_guarded_static (generated import list), frame_commutes, interleavings_agree"
 CORRESPONDENCE_ONLY = "absence of data races in the compiled code: observed under ThreadSanitizer, not proved"
 EXPLANATION = ("no mutable static storage on the codec path (regenerated from the binary on every run) + frame theorem; "
                "bridge = C++ memory model for objects without common reachable mutable storage (assumed)")
@@ -28,6 +28,13 @@ def generate(rng, tier):
         if g.num_points == 0:
             continue
         toks, info = e2e.rand_options(rng, g)
+        if i % 3 == 0:
+            # option vectors (explicit quantization origins) travel through Options::GetVector's string parsing:
+            # make sure a good share of the concurrent calls exercises that path
+            for _ in range(12):
+                if info.get("explicit"):
+                    break
+                toks, info = e2e.rand_options(rng, g, explicit=1.0, quant_prob=1.0)
         base.append("encdec " + " ".join(toks) + " -- " + g.to_text())
     cases = []
     seq = []
